@@ -186,7 +186,7 @@ func (m c15) Case(c *Ctx, r *RNG) {
 	for f := 0; f < nf && len(all) > 0; f++ {
 		i := r.Intn(len(all))
 		rel, owner := all[i], owners[i]
-		kind := r.Intn(7)
+		kind := r.Intn(9)
 		switch kind {
 		case 0:
 			rel.ToType = "missing"
@@ -235,6 +235,23 @@ func (m c15) Case(c *Ctx, r *RNG) {
 			}
 			rel.FromType = "other" // not offending for a one-way relationship
 			tag = "wrong-fromtype-oneway"
+		case 7: // one-way relationship declared from another type than its owner, pointing to a missing type
+			if rel.ToName != "" {
+				continue
+			}
+			rel.ToType = "missing"
+			rel.FromType = []string{"missing", owner, "other", order[r.Intn(len(order))]}[r.Intn(4)]
+			tag = "missing-target"
+		case 8: // FromType equal to the target type (existing)
+			rel.FromType = rel.ToType
+			if rel.ToName != "" {
+				tag = "wrong-fromtype-twoway"
+				if rel.FromType == owner {
+					tag = ""
+				}
+			} else {
+				tag = "wrong-fromtype-oneway"
+			}
 		case 6: // one-way relationship that names a non-existing inverse
 			if rel.ToName != "" {
 				continue
@@ -246,6 +263,9 @@ func (m c15) Case(c *Ctx, r *RNG) {
 	}
 	if nf != 1 {
 		tag = ""
+	}
+	if tag != "" && c15offending(types, order) == 0 {
+		tag = "" // the planted change happens not to be a fault
 	}
 	m.run(c, order, types, nilMaps, tag)
 	if c.Index < 3 {
